@@ -452,9 +452,18 @@ static void gen_stops(struct scen *sc, struct rng *r, long c)
 	gen_conv(sc, r, c);
 	sc->cfg.c08_mode = false;
 	sc->cfg.stop_at_parkable = 1 + (long)(c % 80);
+	if (c % 4 == 3) {
+		/* rtr_stop() while the FSM thread is in the middle of applying a response */
+		sc->cfg.stop_at_parkable = 0;
+		sc->cfg.stop_in_callback = 1 + (long)rndn(r, 12);
+		sc->cfg.horizon = 200000; /* backstop if that many callbacks never happen */
+		sc->callbacks = true;
+	}
 	sc->restart_after_phase1 = 1;
 	sc->cfg2 = sc->cfg;
 	sc->cfg2.stop_at_parkable = 0;
+	sc->cfg2.stop_in_callback = 0;
+	sc->cfg2.horizon = 0;
 	sc->cfg2.c08_mode = true;
 	sc->cfg2.p_defect = sc->cfg2.p_override = sc->cfg2.p_tfault = 0;
 	sc->cfg2.nxplan = 0;
